@@ -625,10 +625,12 @@ const (
 	opRegX5
 	opDropX4
 	opDropX5
+	opX4Swaps     // x4 now serves S4 instead of S3 (same descriptor file), then RegisterConn(x4)
+	opRegX5Breaks // RegisterConn(x5) whose reflection stream fails at the final CloseSend: an error, nothing changes
 	nOpsX
 )
 
-var opNamesX = []string{"RegisterConn(x4: lists S3, file declares S3+S4)", "RegisterConn(x5: lists S4, same file)", "DropConn(x4)", "DropConn(x5)"}
+var opNamesX = []string{"RegisterConn(x4: lists S3, file declares S3+S4)", "RegisterConn(x5: lists S4, same file)", "DropConn(x4)", "DropConn(x5)", "x4 serves S4 instead of S3 now (same file); RegisterConn(x4)", "RegisterConn(x5) failing at the reflection stream's CloseSend"}
 
 func (w *bWorld) sharedFile() protoreflect.FileDescriptor {
 	f := dyn.File{Name: "vb/s34.proto", Pkg: "vb", Deps: []protoreflect.FileDescriptor{w.msgs}}
@@ -665,6 +667,7 @@ func c11CheckX(w *bWorld, f34 protoreflect.FileDescriptor, history []int, probes
 	defer x[0].Conn().Close()
 	defer x[1].Conn().Close()
 	reg := [2]bool{}
+	x4svc := "S3" // what x4 lists
 	mk := func(oracle, note string) {
 		var ops []string
 		for _, o := range history {
@@ -685,6 +688,21 @@ func c11CheckX(w *bWorld, f34 protoreflect.FileDescriptor, history []int, probes
 				got = fmt.Sprint(m.DropConn(context.Background(), x[op-opDropX4].Conn()))
 				want = fmt.Sprint(reg[op-opDropX4])
 				reg[op-opDropX4] = false
+			case opRegX5Breaks:
+				x[1].FailCloseSend = true
+				err := m.RegisterConn(context.Background(), x[1].Conn())
+				x[1].FailCloseSend = false
+				got, want = "error", "error"
+				if err == nil {
+					got = ""
+				}
+			case opX4Swaps:
+				x4svc = "S4"
+				x[0].Offer([]protoreflect.FileDescriptor{f34}, []string{"vb.S4"})
+				if err := m.RegisterConn(context.Background(), x[0].Conn()); err != nil {
+					got = "error: " + err.Error()
+				}
+				reg[0] = true
 			}
 		})
 		if step != len(history)-1 {
@@ -700,10 +718,10 @@ func c11CheckX(w *bWorld, f34 protoreflect.FileDescriptor, history []int, probes
 	}
 	owners := map[string][]string{}
 	if reg[0] {
-		owners["S3"] = []string{"x4"}
+		owners[x4svc] = append(owners[x4svc], "x4")
 	}
 	if reg[1] {
-		owners["S4"] = []string{"x5"}
+		owners["S4"] = append(owners["S4"], "x5")
 	}
 	for _, pr := range probes {
 		own := owners[pr.svc]
@@ -727,8 +745,16 @@ func c11CheckX(w *bWorld, f34 protoreflect.FileDescriptor, history []int, probes
 				break
 			}
 			// who was asked, whatever the answer was
+			isOwner := func(name string) bool {
+				for _, o := range own {
+					if o == name {
+						return true
+					}
+				}
+				return false
+			}
 			for i, name := range []string{"x4", "x5"} {
-				if x[i].UnaryCalls != before[i] && !(len(own) == 1 && own[0] == name) {
+				if x[i].UnaryCalls != before[i] && !isOwner(name) {
 					mk("delivered-to-a-back-end-not-serving-it", fmt.Sprintf("%s (handler pick %d) was sent to %s, which does not list vb.%s; live back-ends of vb.%s: %v", pr.name, pick, name, pr.svc, pr.svc, own))
 				}
 			}
@@ -740,7 +766,7 @@ func c11CheckX(w *bWorld, f34 protoreflect.FileDescriptor, history []int, probes
 				}
 				continue
 			}
-			if served != own[0] {
+			if !isOwner(served) {
 				mk("live-method-unserved", fmt.Sprintf("%s (handler pick %d): status %d, answered by %q although vb.%s is served by %v", pr.name, pick, code, served, pr.svc, own))
 			}
 		}
@@ -758,7 +784,7 @@ func c11CheckX(w *bWorld, f34 protoreflect.FileDescriptor, history []int, probes
 		idx[p] = fmt.Sprintf("h%d", len(idx))
 		return idx[p]
 	})
-	return viol, fmt.Sprintf("%v||%s", reg, fp), picks
+	return viol, fmt.Sprintf("%v|%s||%s", reg, x4svc, fp), picks
 }
 
 // c11SharedFile: breadth-first search over the second world.
